@@ -12,7 +12,12 @@ CHECKS["C12"] = dict(
           "0..70000 bytes with planted braces/control bytes plus a generated pair of keys sharing a non-empty tag. Oracle: "
           "bit-serial CRC16/XMODEM + port of the specification's HASH_SLOT pseudo code, compared with the slot obtained "
           "through the real chooseHost on a routing table mapping slot i to address i. A case is non-trivial when the key "
-          "contains '{'; distinct by key bytes (enumerations: distinct by construction)."),
+          "contains '{'; distinct by key bytes (enumerations: distinct by construction). part tagrouting (end to end, simulated cluster of "
+          "2..4 masters, real proxy): 1..4 generated hash tags with 8 keys each (different text before the tag), some present, some absent; "
+          "the slots of some tags are half migrated (0..8 of the tag's keys already on the importing node); 1..40 sequential GET / SET / EXISTS / "
+          "APPEND on these keys. Slot ownership never changes during a case. Oracle per command (node logs): the first node the command "
+          "reaches is the owner of the tag's slot (independent CRC16 + tag rule), no node it reaches answers MOVED (ASK from a migrating owner "
+          "is legitimate), the reply equals a single server's; MOVED counter unchanged over the case. Non-trivial: a slot is half migrated."),
     assumptions=["the reference CRC is pinned by the standard check value 0x31C3 for '123456789' (slot 12739)",
                  "end-to-end routing of the same key families is checked by C03's routing oracle"],
     parts=[
@@ -21,13 +26,14 @@ CHECKS["C12"] = dict(
         dict(name="braces", test="TestBracesExhaustive", kind="plain", shards=1, timeout=600),
         dict(name="random", test="TestSlotRandom", kind="rapid", checks={"quick": 15000, "thorough": 1500000},
              shards={"quick": 4, "thorough": 16}, timeout={"quick": 600, "thorough": 3000}),
+        dict(name="tagrouting", test="TestTagRouting", kind="rapid", checks={"quick": 300, "thorough": 3000}, shards=16, timeout={"quick": 900, "thorough": 3400}, shrinktime="30s", gomaxprocs=4),
     ],
 )
 
 ENGINES = [
     dict(name="whitebox", path="harness/props", serves_properties=["C10", "C12", "C13", "C15", "C17", "C18", "C19"],
          kind_free_text="rapid property tests and exhaustive enumerations over verif-tagged re-exports of pure functions and small state machines"),
-    dict(name="sim", path="harness/sim", serves_properties=["C01", "C02", "C03", "C04", "C07", "C11", "C13", "C14", "C18", "C20"],
+    dict(name="sim", path="harness/sim", serves_properties=["C01", "C02", "C03", "C04", "C07", "C09", "C11", "C12", "C13", "C14", "C18", "C19", "C20"],
          kind_free_text="in-process simulated Redis Cluster (real RESP over loopback TCP, MOVED/ASK/ASKING/CLUSTER NODES, reply gating, fault injection) with a reference keyspace executor; the proxy under test is the real one created through proc.New"),
 ]
 
